@@ -255,6 +255,29 @@ def _gen_kl(rng):
     else:
         Q = _dist(rng, n)
     c = {"kind": "kl", "base": rng.choice(["2", "e", "10"]), "two_d": rng.random() < 0.2}
+    if rng.random() < 0.2 and n >= 2:
+        # nearly equal but different distributions (entries agree to ~1e-5..1e-8): the divergence is
+        # tiny but must not be zero; and a vanishing Q cell under a tiny P cell must give +inf
+        k = rng.choice([19, 20])
+        P = [F(rng.randint(1, 6), 1) for _ in range(n)]
+        tot = sum(P)
+        P = [x / tot for x in P]
+        P = [F(round(x * 2 ** 10), 2 ** 10) for x in P]
+        P[0] += 1 - sum(P)
+        if P[0] <= 0 or rng.random() < 0.2:
+            P = [1 - F(1, 2 ** 30)] + [F(1, 2 ** 30)] + [F(0)] * (n - 2)
+            Q = [F(1)] + [F(0)] * (n - 1)
+        else:
+            Q = list(P)
+            big = [t for t in range(n) if P[t] >= F(1, 8)]
+            if len(big) >= 2:
+                i, j = rng.sample(big, 2)      # cells large enough for the double evaluation to resolve the difference
+                Q[i] += F(1, 2 ** k)
+                Q[j] -= F(1, 2 ** k)
+        c["P"] = [str(x) for x in P]
+        c["Q"] = [str(x) for x in Q]
+        c["near"] = True
+        return c
     if r > 0.93:
         Q = Q + [F(0)]
         c["two_d"] = False
@@ -743,8 +766,18 @@ def oracle(c, r):
         if sum(P) == 1 and sum(Q) == 1:
             if not d >= -1e-12:
                 out.append(("kl-nonneg", "relative entropy %r < 0" % d))
-            if (P == Q) != (abs(d) <= 1e-12):
+            if not c.get("near") and (P == Q) != (abs(d) <= 1e-12):
                 out.append(("kl-zero-iff-equal", "P==Q is %s but divergence %r" % (P == Q, d)))
+            if c.get("near") and P == Q and abs(d) > 1e-15:
+                out.append(("kl-zero-iff-equal", "equal distributions but divergence %r" % d))
+            if c.get("near") and P != Q and not math.isinf(exp[0]):
+                # tiny divergences: compare with a 60-digit evaluation, relative 1e-3 (cancellation in doubles)
+                import decimal
+                decimal.getcontext().prec = 60
+                D = lambda x: decimal.Decimal(x.numerator) / decimal.Decimal(x.denominator)
+                ex = sum(D(p) * (D(p) / D(q)).ln() for p, q in zip(P, Q) if p > 0) / decimal.Decimal(lb)
+                if not (d > 0 and abs(d - float(ex)) <= 1e-2 * float(ex) + 1e-15):
+                    out.append(("kl-zero-iff-equal", "different distributions, divergence %r but exact value %.6e" % (d, float(ex))))
         return out
     if k == "wmi":
         if "err" in r:
@@ -950,6 +983,8 @@ def tags(c, r):
         t.append("kl-inf" if math.isinf(r["d"][0]) else ("kl-zero" if r["d"][0] == 0 else "kl-pos"))
     if k == "kl" and "err" in r:
         t.append("kl-rejected")
+    if k == "kl" and c.get("near"):
+        t.append("kl-near-equal")
     if k == "wmi":
         t.append("uniform-weights" if c["uniform"] else "general-weights")
     return t
@@ -957,7 +992,7 @@ def tags(c, r):
 
 ESSENTIAL_TAGS = ["jc", "ids-near-dtype-limit", "default-n", "bad-neg", "bad-big", "bad-len", "mixed-dtypes", "different-feature-counts", "self",
                   "layout-F", "layout-S", "mi-self", "mi-two-sided", "never-observed-pair", "normalized",
-                  "cc-nonsquare", "cc-rejected", "kl-inf", "kl-zero", "kl-pos", "uniform-weights", "general-weights"]
+                  "cc-nonsquare", "cc-rejected", "kl-inf", "kl-zero", "kl-pos", "kl-near-equal", "uniform-weights", "general-weights"]
 
 
 if __name__ == "__main__" and "--worker" in sys.argv:
